@@ -52,6 +52,7 @@ class Shard:
         self.done_buckets = set()
         self.harness_error = None
         self.skipped_budget = 0
+        self.slowest = []             # [(seconds, case)] top 3
         # hypothesis round state
         self.target = None
         self.best_case = None
@@ -126,7 +127,13 @@ class Shard:
         elif time.time() - self.shrink_start > self.shrink_budget and case != self.best_case:
             return      # shrink budget used up: let the shrinker converge on the best case found so far
         try:
-            info = self.mod.evaluate(case)
+            t1 = time.time()
+            try:
+                info = self.mod.evaluate(case)
+            finally:
+                dt = time.time() - t1
+                if dt > 1.0 and (len(self.slowest) < 3 or dt > self.slowest[-1][0]):
+                    self.slowest = sorted(self.slowest + [(round(dt, 2), jsonable(case))], key=lambda e: -e[0])[:3]
         except Violation as v:
             self.evaluations += 1
             fid = findings.match(self.mod, self.entries, case, v)
@@ -237,7 +244,7 @@ class Shard:
             "nontrivial": sorted(self.nontrivial), "allcases": sorted(self.allcases), "labels": self.labels, "counters": self.counters,
             "samples": samples, "known": self.known, "excluded": self.excluded,
             "violations": self.violations, "harness_error": self.harness_error,
-            "skipped_budget": self.skipped_budget, "wall": round(time.time() - self.t0, 2),
+            "skipped_budget": self.skipped_budget, "slowest": self.slowest, "wall": round(time.time() - self.t0, 2),
         }
 
 
